@@ -449,6 +449,28 @@ def rw_map_collect(body, cnt):
         body = body[:m.start()] + repl + body[c + 1 + tm.end():]
         cnt.hit('R19')
 
+def rw_map_or(body, cnt):
+    """R30: RECV.map_or(D, |p| E)  ==>  (match RECV { None => D, Some(p) => E })   (definition of Option::map_or)
+    only when D is a literal or a plain path (evaluated eagerly by map_or, so it must be free of effects) and E neither returns nor uses `?`"""
+    start = 0
+    while True:
+        msk = mask(body)
+        m = re.compile(r'([A-Za-z_]\w*(?:\s*\.\s*[A-Za-z_]\w*)*)\s*\.\s*map_or\s*\(').search(msk, start)
+        if not m: return body
+        o = m.end() - 1
+        c = match_close(msk, o)
+        parts = split_top(body[o + 1:c])
+        ok = len(parts) == 2
+        if ok:
+            d = parts[0].strip(); cl = parts[1].strip()
+            cm = re.match(r'^\|\s*([\w\s,&()]+?)\s*\|\s*(.*)$', cl, re.S)
+            ok = bool(cm) and bool(re.match(r'^[\w:\.]+$', d)) and not re.search(r'\breturn\b|\?', mask(cm.group(2)) if cm else '')
+        if not ok:
+            start = m.end(); continue
+        recv = re.sub(r'\s+', '', body[m.start(1):m.end(1)])
+        body = body[:m.start()] + '(match %s { None => %s, Some(%s) => %s })' % (recv, d, cm.group(1).strip(), cm.group(2).strip()) + body[c + 1:]
+        cnt.hit('R30')
+
 def rw_format(body, cnt):
     """D5: `format!(..)` only builds error / attribute text, which no clause specifies: the text is dropped"""
     while True:
@@ -484,7 +506,7 @@ def rw_paths(body, cnt):
     if n: cnt.hit('D3', n)
     return body
 
-GENERIC = [rw_paths, rw_format, rw_into_iter_map_collect, rw_map_collect, rw_find, rw_update_closure, rw_sum, rw_for_loops, rw_opassign, rw_opassign_arm, rw_closure_underscore]
+GENERIC = [rw_paths, rw_map_or, rw_format, rw_into_iter_map_collect, rw_map_collect, rw_find, rw_update_closure, rw_sum, rw_for_loops, rw_opassign, rw_opassign_arm, rw_closure_underscore]
 
 # --------------------------------------------------------------------------------------
 
@@ -619,6 +641,7 @@ class Unit:
         self.lenient = bool(os.environ.get('VERIF_LENIENT'))
         self.force_assume = set(x for x in os.environ.get('VERIF_ASSUME_FNS', '').split(',') if x)
         self.assumed = []
+        self.drop_hints = set()
 
     def read_repo(self, rel):
         p = os.path.join(self.repo, rel)
@@ -863,20 +886,26 @@ class Unit:
             if k >= len(lp): raise ExtractError(f'{name}: loop ordinal {k} not found ({len(lp)} loops)')
         # hints and loop specs are inserted by offset, from the back
         inserts = []  # (offset, kind, payload)
+        dropped = []  # proof hints that could not be placed on this tree (lenient mode): the function is verified without them
         for k, ls in spec['loops'].items():
             inserts.append((lp[k][1], 'loop', (k, ls)))
         bm = mask(body)
-        for h in spec['hints']:
+        for hidx, h in enumerate(spec['hints']):
+            if (opts.get('as') or name, hidx) in self.drop_hints:
+                dropped.append('hint %d (%r): rejected by the front end on this tree' % (hidx, h.get('anchor', 'loopend'))); continue
             if 'loopend' in h:
                 k = h['loopend']
                 if k >= len(lp): raise ExtractError(f'{name}: loopend ordinal {k} not found')
-                inserts.append((match_close(bm, lp[k][1]), 'hint', h['text']))
+                inserts.append((match_close(bm, lp[k][1]), 'hint', h['text'], hidx))
                 continue
             pos = -1; start = 0
             for _ in range(h['nth']):
                 pos = body.find(h['anchor'], start)
-                if pos < 0: raise ExtractError(f'{name}: hint anchor lost: {h["anchor"]!r}')
+                if pos < 0: break
                 start = pos + 1
+            if pos < 0:
+                if not self.lenient: raise ExtractError(f'{name}: hint anchor lost: {h["anchor"]!r}')
+                dropped.append('hint %d: anchor lost: %r' % (hidx, h['anchor'])); continue
             if h['after']:
                 # end of the statement containing the anchor: next ';' at depth 0 relative to anchor
                 j = pos; depth = 0; tail = False
@@ -890,7 +919,7 @@ class Unit:
                     elif ch == ';' and depth <= 0: break
                     j += 1
                 if tail:
-                    inserts.append((j, 'hint', [';'] + h['text']))
+                    inserts.append((j, 'hint', [';'] + h['text'], hidx))
                     continue
                 off = j + 1
             else:
@@ -899,12 +928,13 @@ class Unit:
                 if not h.get('nofloat'):
                     off2 = float_up(body, bm, off, h['text'])
                     if off2 != off: cnt.hit('F1'); off = off2
-            inserts.append((off, 'hint', h['text']))
+            inserts.append((off, 'hint', h['text'], hidx))
         inserts.sort(key=lambda x: x[0])
         # emit
         src_name = name
         name = opts.get('as') or name
         fnrec = dict(kind='fn', name=name, src_name=src_name, file=file, lines=f['lines'], impl=opts.get('impl'))
+        if dropped: fnrec['dropped_hints'] = dropped
         self.functions.append(fnrec)
         self.rewrites[name] = cnt
         if opts.get('impl'):
@@ -926,11 +956,12 @@ class Unit:
         if os.environ.get('VERIF_PROBE') and (spec['ensures'] or spec['requires']):
             # reachability probe behind the precondition: must FAIL (a caller never sees it)
             body = '{ proof { assert(false); } //PROBE\n' + body[1:]
-            inserts = [(off + len('{ proof { assert(false); } //PROBE\n') - 1, k, p) for (off, k, p) in inserts]
+            inserts = [(x[0] + len('{ proof { assert(false); } //PROBE\n') - 1,) + tuple(x[1:]) for x in inserts]
             c = Clause(name + '#__probe', ['PROBE'], 'probe', name); c.line0 = c.line1 = len(self.out) + 1
             self.clauses.append(c)
         pos = 0
-        for off, kind, payload in inserts:
+        for ins in inserts:
+            off, kind, payload = ins[0], ins[1], ins[2]
             self.emit_raw(body[pos:off])
             pos = off
             if kind == 'loop':
@@ -941,6 +972,7 @@ class Unit:
                 h0 = len(self.out) + 1
                 for hl in payload: self.out.append(hl)
                 fnrec.setdefault('hint_lines', []).append([h0, len(self.out)])     # proof-support text, not code and not specification
+                fnrec.setdefault('hint_ids', []).append(ins[3] if len(ins) > 3 else -1)
         self.emit_raw(body[pos:])
         self.flush_partial()
         fnrec['out_line1'] = len(self.out)
@@ -978,11 +1010,12 @@ class Unit:
             c.line1 = max(c.line1, j)
 
 
-def build_unit(name, repo, verif, outdir, lenient=False, force_assume=()):
+def build_unit(name, repo, verif, outdir, lenient=False, force_assume=(), drop_hints=()):
     _loop_id[0] = 0
     u = Unit(name, repo, verif)
     if lenient: u.lenient = True
     u.force_assume |= set(force_assume)
+    u.drop_hints = set(tuple(x) for x in drop_hints)
     text = u.build(os.path.join(verif, 'units', name + '.vrs'))
     u.finish_clause_ranges()
     os.makedirs(outdir, exist_ok=True)
